@@ -241,6 +241,52 @@ def _order_job(triples):
     return part
 
 
+# ------------------------------------------------------------------ (a') several boards alive
+
+PAIR_VERSIONS = ["2.9.9", "2.10.0", "3.0.1", "3.0.2", "3.0.10", "3.1.0", "10.0.0"]
+PAIR_THRESHOLDS = ["2.10.0", "3.0.2", "3.0.5", "3.0.10", "3.1", "9.9.9"]
+
+
+def check_pair(ver_a, ver_b, thresholds):
+    """Two EBB3 objects, two boards: a, b, a again - each answer is about that object's board."""
+    from plotink import ebb_serial          # pylint: disable=import-outside-toplevel
+    core.quiet_legacy_logger()
+    key = lambda text: tuple(map(int, text.split(".")))     # pylint: disable=unnecessary-lambda-assignment
+    objs = []
+    for ver in (ver_a, ver_b):
+        obj = probe_class()()
+        obj.parse_version(PREFIX + ver)
+        objs.append((ver, obj, FakePort(LegacyBoard(version=ver))))
+    out = []
+    for thr in thresholds:
+        for ver, obj, port in (objs[0], objs[1], objs[0]):
+            want = key(ver) >= key(thr) + (0,) * (3 - len(key(thr))) if len(key(thr)) < 3 \
+                else key(ver) >= key(thr)
+            try:
+                got = (ebb_serial.min_version(port, thr), obj.min_version(thr))
+            except Exception as exc:        # pylint: disable=broad-except
+                got = repr(exc)
+            if got != (want, want):
+                out.append((thr, f"boards {ver_a} and {ver_b} connected side by side; asked in turn "
+                            f"(a, b, a) for thresholds {thresholds[:thresholds.index(thr) + 1]}: "
+                            f"board {ver} >= {thr} is {want}, (legacy, EBB3) min_version = {got!r}"))
+                return out
+    return out
+
+
+def _pair_job(pairs):
+    part = core.Part()
+    for ver_a, ver_b in pairs:
+        for rot in range(len(PAIR_THRESHOLDS)):
+            thresholds = PAIR_THRESHOLDS[rot:] + PAIR_THRESHOLDS[:rot]
+            for thr, msg in check_pair(ver_a, ver_b, thresholds):
+                part.violation(f"pair:{ver_a}:{ver_b}:{thr}", msg,
+                               {"kind": "pair", "a": ver_a, "b": ver_b, "thresholds": thresholds})
+            part.count("pair_histories")
+            part.count("order_pairs", 3 * len(thresholds))
+    return part
+
+
 # ----------------------------------------------------------------------------- (c) gates
 
 GATES = [("servo_timeout", (2, 6, 0), b"SR,"), ("queryVoltage", (2, 2, 3), b"QC"),
@@ -291,6 +337,8 @@ def run(ctx):
             jobs.append(("hs", (script, name, bound)))
     triples = list(itertools.product(COMPONENTS, repeat=3))
     jobs += [("order", chunk) for chunk in core.split(triples, 32)]
+    jobs += [("pair", chunk) for chunk in core.split(
+        list(itertools.permutations(PAIR_VERSIONS, 2)), 8)]
     part = core.fan_out(ctx, _dispatch, jobs)
     for feature, _gate, _cmd in GATES:
         for version in GATE_VERSIONS:
@@ -310,7 +358,8 @@ def run(ctx):
         "evaluations": execs + cnt.get("order_pairs", 0) + cnt.get("gate_cases", 0),
         "distinct_nontrivial": cnt.get("faulted_executions", 0) + cnt.get("nontrivial_order", 0),
         "rule": "(a) 729 x 729 version/threshold pairs over components {0,1,2,9,10,11,99,100,123456}, "
-                "both layers; (b) connect() histories (connect+6 requests; connect,connect; "
+                "both layers, plus 42 ordered pairs of boards alive side by side x 6 threshold orders "
+                "asked a, b, a (answers are per object); (b) connect() histories (connect+6 requests; connect,connect; "
                 "connect,disconnect,connect) x given_name {None, matching, missing} x every "
                 f"environment vector with <= {bound} deviations (open failure, 9 banner kinds per "
                 "probe, late/silent/error replies, raising reads and writes); (c) 5 legacy gates "
@@ -319,6 +368,7 @@ def run(ctx):
         "samples": core.rotate(part.samples, ctx.seed, 4),
         "handshake_executions": execs,
         "order_pairs": cnt.get("order_pairs", 0),
+        "side_by_side_histories": cnt.get("pair_histories", 0),
         "order_pairs_where_string_order_differs": cnt.get("nontrivial_order", 0),
         "gate_cases": cnt.get("gate_cases", 0),
         "accepted_supported_board_executions": cnt.get("accepted_supported_board", 0),
@@ -338,6 +388,8 @@ def run(ctx):
 
 
 def _dispatch(job):
+    if job[0] == "pair":
+        return _pair_job(job[1])
     return _hs_job(job[1]) if job[0] == "hs" else _order_job(job[1])
 
 
@@ -354,6 +406,8 @@ def replay(case):
         except Exception as exc:            # pylint: disable=broad-except
             return [f"min_version raised {exc!r}"]
         return [] if got == (want, want) else [f"{ver} >= {thr}: expected {want}, got {got}"]
+    if case["kind"] == "pair":
+        return [m for _t, m in check_pair(case["a"], case["b"], case["thresholds"])]
     if case["kind"] == "gate":
         return check_gate(case["feature"], case["version"])
     script = [tuple(s) if isinstance(s, list) else s for s in case["script"]]
